@@ -30,22 +30,27 @@ EXPLANATION = (
     'names shorter than the longest suffix (site by-extension-short-file-name; the out-of-bounds read before the '
     'string was fixed in /repo by commit cdfd7e9, the stream is the regression guard); no Lean obligation is '
     'attached to it.  '
-    'BINARY UGRID (Refine/Props/C20Ugrid.lean, faithful models decodeUgrid = ref_import_bin_ugrid and partRead = '
-    'ref_part_bin_ugrid): decode_total; accepted_counts_fit (header, nnode coordinate triples and per kind count x node_per '
-    '(+ count tags) integers fit in the bytes present: every fread is checked, sections with count <= 0 are skipped, negative '
-    'nnode is REF_FAILURE); accepted_indices_in_range_partial (indices >= 1: ref_adj_add) — the upper bound is NOT checked by '
-    'any UGRID reader: accepted_indices_in_range_counterexample(_replay) (140-byte files accepted with vertex 6 / 50000001 '
-    'of 4), part_index_unchecked_counterexample (first vertex 5 of 4 -> elements_to_send[1] on one rank; nnode = 0 -> '
-    'division by zero), part_count_overflow_counterexample (2^31-1 declared tets / 2^63-1 declared vertices overflow int / '
-    'long arithmetic before any check); accepted_indices_in_range is proved for the repaired reader variant ugridCfgFixed, '
-    'fixed_reader_roundtrip shows the repair keeps C08.  Tie: c20_ugrid_mut — truncation at every section boundary, counts '
-    ':= {-1,0,2^31-1,...}, indices := {0, nnode+1, huge, INT_MIN,...}, tags, bit flips, trailing bytes on all six names: C '
-    'status and dump == model for the static serial reader and for ref_part_by_extension at one rank wherever the model '
-    'predicts a status; c20_ugrid_robust — the same mutants through ref_import_by_extension, import+export, '
-    'ref_part_by_extension must return (10 s, 1 GiB, 300 MB touched).  Streams c20_ugrid_index / c20_ugrid_count / '
-    'c20_ugrid_sweep replay the Lean witnesses (thorough: also the mutants of those classes) and currently FAIL in the real '
-    'readers/writer: KNOWN-FINDING sites ugrid-vertex-index-unchecked, ugrid-part-count-overflow, '
-    'ugrid-export-faceid-range-sweep (findings/<site>/ has the files, the ops and the proposed repair).')
+    'BINARY UGRID (Refine/Props/C20Ugrid.lean; decodeUgrid = ref_import_bin_ugrid and partRead = ref_part_bin_ugrid as they are '
+    'since /repo commit 6682479): decode_total; accepted_counts_fit (header, nnode coordinate triples and per kind count x '
+    'node_per (+ count tags) integers fit in the bytes present: every fread is checked, sections with count <= 0 are skipped, '
+    'negative nnode is REF_FAILURE); accepted_indices_in_range (serial) and part_accepted_indices_in_range (parallel, every '
+    'rank count and chunk size): every node index of every accepted cell is in 1..nnode; part_rows_checked_before_routing '
+    '(ref_part_implicit is only evaluated on rows that passed the test); index_witnesses_refused (the four files of the '
+    'finding are REF_INVALID in both readers); checked_reader_roundtrip (the check keeps C08).  History: '
+    'legacy_accepted_indices_in_range_counterexample / legacy_part_index_unchecked_counterexample keep the proofs that the '
+    'readers before 6682479 (ugridCfgLegacy) accepted vertex 6 / 50000001 of 4 and had no status for a first vertex 5 of 4 '
+    'or nnode = 0.  Still open: part_count_overflow_counterexample (2^31-1 declared tets / 2^63-1 declared vertices overflow '
+    'int / long arithmetic of the parallel reader before any check).  Tie: c20_ugrid_mut — truncation at every section '
+    'boundary, counts := {-1,0,2^31-1,...}, indices := {0, nnode+1, huge, INT_MIN,...}, tags, bit flips, trailing bytes on all '
+    'six names: C status and dump == model for the static serial reader and for ref_part_by_extension at one rank wherever '
+    'the model predicts a status; c20_ugrid_robust — the same mutants through ref_import_by_extension, import+export, '
+    'ref_part_by_extension must return (10 s, 1 GiB, 300 MB touched); c20_ugrid_index — regression guard of the repaired '
+    'finding ugrid-vertex-index-unchecked: the witness files must be refused with REF_INVALID (exact status, both readers), the '
+    'entry points must return, and the ASCII .ugrid reader must refuse vertex index 0 / nnode+1 / huge and accept the valid '
+    'file (oracle: independent parse of the text; no model of the ASCII reader).  Streams c20_ugrid_count / c20_ugrid_sweep '
+    'replay the Lean witnesses (thorough: also the mutants of those classes) and currently FAIL in the real reader/writer: '
+    'KNOWN-FINDING sites ugrid-part-count-overflow, ugrid-export-faceid-range-sweep (findings/<site>/ has the files, the ops '
+    'and the proposed repair).')
 ASSUMPTIONS = [
     'the binary libMeshb readers (.meshb, .solb scalar and metric) and the binary UGRID readers (serial, parallel at one '
     'rank) are modelled; ascii ugrid, r8.ugrid, mapbc, text formats are not; file-name handling of *_by_extension is '
